@@ -6,7 +6,12 @@ static int one(int k, int n, const double* x, double* y) {
     case 0: { arr_cmplx r = fft(mk_cmplx(x, n)); put_cmplx(r, y); return r.size(); }
     case 1: { arr_cmplx r = fft(mk_real(x, n)); put_cmplx(r, y); return r.size(); }
     case 2: { arr_cmplx r = ifft(mk_cmplx(x, n)); put_cmplx(r, y); return r.size(); }
-    default: { arr_real r = irfft(mk_cmplx(x, n), n); put_real(r, y); return r.size(); }
+    case 3: { arr_real r = irfft(mk_cmplx(x, n), n); put_real(r, y); return r.size(); }
+    // zero-padded transforms of a shorter input to length n: two different input lengths per n
+    case 4: { arr_cmplx r = fft(mk_cmplx(x, n > 2 ? n - 2 : 1), n); put_cmplx(r, y); return r.size(); }
+    case 5: { arr_cmplx r = fft(mk_cmplx(x, n > 1 ? n / 2 : 1), n); put_cmplx(r, y); return r.size(); }
+    case 6: { arr_cmplx r = fft(mk_real(x, n > 2 ? n - 2 : 1), n); put_cmplx(r, y); return r.size(); }
+    default: { arr_cmplx r = fft(mk_real(x, n > 1 ? n / 2 : 1), n); put_cmplx(r, y); return r.size(); }
     }
 }
 // request history: kinds[i], lens[i] for i < m; the result of request i is left in y[i*ystride ..).  keys: after every request, the complex cache keys (MRU first) in
